@@ -160,3 +160,46 @@ class TlcModel:
 
     def key(self):
         return frozenset(self.states)
+
+
+# replay of model traces ------------------------------------------------------------------------------------------------
+EVENT_OF_LABEL = {"RwOk": "rb_ok", "RwErr": "rb_fail", "ReconOk": "tick_ok", "ReconFail": "tick_fail", "ConnectOk": "connect_ok",
+                  "ConnectFail": "connect_fail", f"Elapse({H.EL_SMALL})": "el_small", f"Elapse({H.EL_REC})": "el_rec",
+                  f"Elapse({H.EL_ERR})": "el_err"}
+
+
+def shortest_paths(g: Graph) -> dict[str, tuple[str, list[str]]]:
+    """node id -> (initial node, shortest list of action labels from it) (BFS over the TLC graph)"""
+    import collections
+    paths = {n: (n, []) for n in sorted(g.init)}
+    todo = collections.deque(sorted(g.init))
+    by_src = collections.defaultdict(list)
+    for (n, label), xs in sorted(g.succ.items()):
+        for x in sorted(xs):
+            by_src[n].append((label, x))
+    while todo:
+        n = todo.popleft()
+        for label, x in by_src[n]:
+            if x not in paths:
+                paths[x] = (paths[n][0], paths[n][1] + [label])
+                todo.append(x)
+    return paths
+
+
+def edge_traces(g: Graph):
+    """One trace per edge of the TLC graph: the shortest path to its source, then the edge.  Yields (init node, [labels], edge)."""
+    paths = shortest_paths(g)
+    for (n, label), xs in sorted(g.succ.items()):
+        if n not in paths:
+            continue
+        for x in sorted(xs):
+            yield (paths[n][0], paths[n][1] + [label], (n, label, x))
+
+
+def event_for(label: str, impl_state: str) -> str | None:
+    """the harness event that is the TLA+ action `label` in the implementation state; None = no such event"""
+    if label == "Elapse(0)":
+        return "tick_ok" if impl_state not in ("Reconnect", "Error", "Disconnected") else None
+    if label in ("ReconOk", "ReconFail") and impl_state not in ("Reconnect", "Error"):
+        return None
+    return EVENT_OF_LABEL[label]
